@@ -41,6 +41,11 @@ def run_all_schedules(case):
     try:
         ds = _impl["Dataset"].from_raw_list(am.raw_dataset(case["D"]))
         ss = _impl["SS"](core.scheme_float(B, T, unit))
+        if case.get("lex") is not None:
+            lib, tlc = core.lex_vectors(case["lex"])
+            ss = _impl["SS"](lib)
+            case = dict(case)
+            case["sch"] = [tlc[0], tlc[1], 1]
     except Exception as ex:
         return {"id": case["id"], "runs": []}
     shared = None
